@@ -45,11 +45,9 @@ def rule_reject(ctx):
     prog = ctx.prog
     cache = {}
     for fpath, cond, n, why in TABLE:
-        f = prog.fn(fpath)
-        if f is None:
-            cn = fpath.lstrip("<").split("::")[0]
-            c2 = [x for x in prog.crate(cn).fn_list if x.path == fpath] if cn in prog.crates else []
-            f = c2[0] if c2 else None
+        if ("fn", fpath) not in cache:
+            cache[("fn", fpath)] = validation.resolve_closure_entry(prog, fpath, [(c_, n_) for f_, c_, n_, _w in TABLE if f_ == fpath], "jbr")
+        f = cache[("fn", fpath)]
         if f is None:
             ctx.anchor_missing(rid, fpath)
             continue
@@ -596,6 +594,120 @@ def rule_state(ctx):
                     "arriving in pieces is rejected", fn=g)
 
 
+def rule_seglen(ctx):
+    """the ICC payload written by an APP2 segment has the length that segment declares"""
+    from ..facts import callee, op_local, op_place
+    from ..mirutil import Defs
+    rid = "R-JBR-SEGLEN"
+    ctx.rule(rid, "process_next, ICC APP2 segment: the segment header carries the marker's own length (AppMarker.length - 1), so the "
+                  "slice of the profile written after the `ICC_PROFILE` signature and the two sequence bytes must be cut with that "
+                  "marker's length too: every write_all that the signature write dominates and whose buffer is not a fixed-size array "
+                  "has a buffer that data-depends on a read of AppMarker.length (backward slice over assignments and call arguments).  "
+                  "A profile cut into equal chunks, or by any rule that does not look at the marker, desynchronises declared and "
+                  "written lengths for every file whose encoder split the profile differently")
+    cr = ctx.prog.crate("jxl_jbr")
+    fs = [g for g in cr.fn_list if g.path.endswith("::process_next") and "JpegBitstreamReconstructor" in g.path and g.kind == "AssocFn"]
+    if len(fs) != 1:
+        ctx.anchor_missing(rid, "JpegBitstreamReconstructor::process_next")
+        return
+    f = fs[0]
+    ctx.seen(f)
+    defs = Defs(f)
+
+    def origin(l):
+        """follow a buffer operand back through reborrows, copies and unsizing casts: ('const', name) | ('local', l)"""
+        seen = set()
+        while l is not None and l not in seen:
+            seen.add(l)
+            d = defs.single(l)
+            if not d or d[2] != "assign":
+                return ("local", l)
+            rv = d[3][2]
+            if rv[0] == "use" and rv[1][0] == "k":
+                k = rv[1][1]
+                return ("const", str(k.get("item") or k.get("s") or ""))
+            pl = op_place(rv[1]) if rv[0] == "use" else (rv[2] if rv[0] == "ref" else (op_place(rv[2]) if rv[0] == "cast" else None))
+            if pl is None:
+                return ("local", l)
+            if any(isinstance(e, list) for e in pl[1:]):
+                return ("local", l)
+            l = pl[0]
+        return ("local", l)
+
+    def depends_on_length(l):
+        seen, work = set(), [l]
+        while work:
+            x = work.pop()
+            if x is None or x in seen:
+                continue
+            seen.add(x)
+            if x <= f.argc:
+                continue        # self / the writer: everything hangs off them; only what is read out of them on the way counts
+            for d in defs.of(x):
+                if f.is_cleanup(d[0]) or d[2] == "partial":
+                    continue
+                if d[2] == "call":
+                    work.extend(op_local(a) for a in d[3][2])
+                    continue
+                st = d[3]
+                if st[0] != "=":
+                    continue
+                rv = st[2]
+                ops = []
+                if rv[0] in ("use",):
+                    ops = [rv[1]]
+                elif rv[0] in ("cast", "un"):
+                    ops = [rv[2]]
+                elif rv[0] == "bin":
+                    ops = [rv[2], rv[3]]
+                elif rv[0] == "agg":
+                    ops = list(rv[2])
+                pls = [op_place(o) for o in ops] + ([rv[2]] if rv[0] == "ref" else [])
+                for pl in pls:
+                    if pl is None:
+                        continue
+                    for e in pl[1:]:
+                        if isinstance(e, list) and e[0] == "." and e[2] == "length" and "AppMarker" in str(e[3]):
+                            return True
+                    work.append(pl[0])
+        return False
+
+    writes = [(b, t) for b, t in f.calls() if callee(t) and callee(t)["fn"].endswith("io::Write::write_all") and len(t[2]) == 2]
+    sig = [b for b, t in writes if origin(op_local(t[2][1]))[0] == "const" and origin(op_local(t[2][1]))[1].endswith("HEADER_ICC")]
+    if len(sig) != 1:
+        ctx.anchor_missing(rid, "the write of the HEADER_ICC signature in process_next (found %d)" % len(sig))
+        return
+    n = 0
+    bad = []
+    for b, t in writes:
+        if b == sig[0] or not f.dominates(sig[0], b):
+            continue
+        o = origin(op_local(t[2][1]))
+        if o[0] == "const" or (o[0] == "local" and str(f.local_ty(o[1])).lstrip("&").startswith("[u8; ")):
+            continue
+        n += 1
+        if not depends_on_length(op_local(t[2][1])):
+            bad.append(t)
+    delegated = 0
+    if n == 0:
+        for b, t in f.calls():
+            c = callee(t)
+            if not c or b == sig[0] or not f.dominates(sig[0], b) or cr.fns.get(c.get("res") or c["fn"]) is None:
+                continue
+            if any(op_local(a) is not None and ("AppMarker" in str(f.local_ty(op_local(a))) or depends_on_length(op_local(a))) for a in t[2]):
+                delegated += 1
+    ctx.count(rid + ".payload-writes", n + delegated)
+    if n + delegated == 0:
+        ctx.anchor_missing(rid, "the write of the profile bytes after the HEADER_ICC signature in process_next")
+        return
+    if bad:
+        ctx.bad(rid, "icc-payload-length", "the ICC bytes written after the signature do not depend on the marker's declared length "
+                "(AppMarker.length): a profile whose chunks are not all equal is reconstructed with segment lengths that disagree with "
+                "the bytes that follow", fn=f, pos=bad[0][-2])
+    else:
+        ctx.ok(rid, "icc-payload-length", "%d payload write(s) cut with AppMarker.length" % (n + delegated), nontrivial=True, fn=f)
+
+
 def main(pid, tier, repo=None):
     configs = ("workspace",) if tier == "quick" else ("workspace", "norayon")
     ctx = Ctx(pid, tier, configs=configs, repo=repo)
@@ -606,6 +718,7 @@ def main(pid, tier, repo=None):
         rule_state(ctx)
         rule_markerstate(ctx)
         rule_layout(ctx)
+        rule_seglen(ctx)
         fieldrange.run(ctx, LIB_CRATES, only_crates=("jxl_jbr", "jxl_oxide"))
         searchunwrap.run(ctx, ["jxl_jbr"], floor=20)
         from . import fixguards
